@@ -1070,6 +1070,17 @@ func c07R7(c *Ctx, p *Prog) {
 				c.OK(R, k, p.pos(call.Pos()), "byte classified as rune (allow-listed: "+why+")")
 				return
 			}
+			// a byte known to be ASCII is a whole one-byte character (same exemption as C04/R8)
+			unguarded := false
+			for _, bc := range byteAsRune(fn) {
+				if bc == call {
+					unguarded = true
+				}
+			}
+			if !unguarded {
+				c.OK(R, k, p.pos(call.Pos()), "classifies a byte that was tested to be ASCII")
+				return
+			}
 			c.Bad(R, k, p.pos(call.Pos()), "a single byte is converted to a rune and classified as space: the UTF-8 continuation bytes 0x85 and 0xA0 then act as delimiters and split words in the middle of a character")
 		})
 	}
@@ -1362,7 +1373,24 @@ func c07ValuesAndKeywords(c *Ctx, p *Prog) {
 	const R = "C07/R15"
 	pk := "benchproc/internal/parse"
 	kindF := p.Field(pk, "tok", "Kind")
-	mk := p.Method(pk, "parser", "mkMatch")
+	// the match constructor, by role: the function of the package that takes a token and allocates a FilterMatch
+	var mk *ssa.Function
+	for _, f := range p.Funcs(pk) {
+		takesTok := false
+		for _, prm := range f.Params {
+			if recvName(prm.Type()) == "tok" {
+				takesTok = true
+			}
+		}
+		if !takesTok || f.Parent() != nil {
+			continue
+		}
+		eachInstr(f, func(_ *ssa.BasicBlock, in ssa.Instruction) {
+			if al, ok := in.(*ssa.Alloc); ok && recvName(al.Type().(*types.Pointer).Elem()) == "FilterMatch" {
+				mk = f
+			}
+		})
+	}
 	if kindF == nil || mk == nil {
 		c.Undecided(R, "anchor:mkMatch/tok.Kind", "", "not found")
 	} else {
